@@ -83,7 +83,8 @@ PROPS = {
         "technique": "Verus loop invariants on the extracted byte loop (unbounded) + complete Kani harness for Name location packing",
         "explanation": "Verus proves for every source text and offset that SourceFile::get_line_column returns None iff the offset is out of bounds, "
                        "line = 1 + number of GraphQL LineTerminators (LF, CRLF as one, CR) ending at or before the offset, and column = 1 + number of UTF-8 "
-                       "leading bytes since the line start. Kani proves for all u32 offsets / 63-bit file ids that a name's location reads back exactly the "
+                       "leading bytes since the line start; get_line_column_range does the same for both ends; SourceSpan::offset / end_offset / line_column / line_column_range "
+                       "report the position of the span's own start / end offsets in the span's own file (None iff the file is unknown or an offset is out of bounds). Kani proves for all u32 offsets / 63-bit file ids that a name's location reads back exactly the "
                        "span supplied and covers exactly the name's text.",
         "not_decided": ["that from_cst attaches the right span to every node (whole AST conversion)",
                         "diagnostic / JSON rendering (ariadne keeps its own line numbering in rendered text reports)",
